@@ -1457,4 +1457,290 @@ theorem rateVal_explicit (names ps : List String) (subs : List (String × ℚ)) 
 
 end Explicit
 
+/-! ### which symbols are free (lemmas about `mkVars` / `resolve`; moved out of Props: model-internal) -/
+section Free
+variable {R : Type} [CommRing R] [Algebra ℚ R]
+
+
+/-- **The `variables` dict**: a substituted key is its constant; any other key that is a substance or a parameter name is the
+    symbol of that name (bound by `env`); nothing else is defined.  (`subs` is a Python dict: its keys are distinct.) -/
+theorem variables_spec (names ps : List String) (subs : List (String × ℚ)) (hnd : (dkeys subs).Nodup) (env : String → R)
+    (k : String) :
+    (∀ v, dget? subs k = some v → cval (mkVars names ps subs) env k = algebraMap ℚ R v) ∧
+      (k ∉ dkeys subs → (k ∈ ps ∨ k ∈ names) → cval (mkVars names ps subs) env k = env k) ∧
+      (k ∉ dkeys subs → ¬ (k ∈ ps ∨ k ∈ names) → dmem (mkVars names ps subs) k = false) := by
+  refine ⟨?_, ?_, ?_⟩
+  · intro v hv
+    simp only [cval, lookup, dgetD, dget?_mkVars_subs names ps subs hnd hv, ev_const]
+  · intro hk hm
+    simp only [cval, lookup, dgetD, dget?_mkVars_not_subs names ps subs hk, if_pos hm, ev_var]
+  · intro hk hm
+    simp only [dmem, dget?_mkVars_not_subs names ps subs hk, if_neg hm, Option.isSome_none]
+
+/-- **How a rate constant enters** (`Expr.arg` on the `variables` dict), by kind of parameter:
+    a plain number is inlined; a named constant `MassAction([k], unique_keys=[uk])` is the substituted value if `uk` is
+    substituted, else the free symbol `uk` if `uk` is exposed as a parameter, else its stored constant `k`;
+    a value-less key (string parameter, `Symbol` argument) is the substituted value, else the free symbol, else an error. -/
+theorem rate_coeff_spec (names ps : List String) (subs : List (String × ℚ)) (hnd : (dkeys subs).Nodup) (uk : String) (k : ℚ) :
+    resolve (mkVars names ps subs) (.raw k) = some (Poly.const k) ∧
+    resolve (mkVars names ps subs) (.ma k) = some (Poly.const k) ∧
+    (∀ v, dget? subs uk = some v →
+      resolve (mkVars names ps subs) (.named uk k) = some (Poly.const v) ∧
+      resolve (mkVars names ps subs) (.key uk) = some (Poly.const v) ∧
+      resolve (mkVars names ps subs) (.sym uk) = some (Poly.const v)) ∧
+    (uk ∉ dkeys subs → (uk ∈ ps ∨ uk ∈ names) →
+      resolve (mkVars names ps subs) (.named uk k) = some (Poly.var uk) ∧
+      resolve (mkVars names ps subs) (.key uk) = some (Poly.var uk) ∧
+      resolve (mkVars names ps subs) (.sym uk) = some (Poly.var uk)) ∧
+    (uk ∉ dkeys subs → ¬ (uk ∈ ps ∨ uk ∈ names) →
+      resolve (mkVars names ps subs) (.named uk k) = some (Poly.const k) ∧
+      resolve (mkVars names ps subs) (.key uk) = none ∧
+      resolve (mkVars names ps subs) (.sym uk) = none) := by
+  refine ⟨rfl, rfl, ?_, ?_, ?_⟩
+  · intro v hv
+    simp [resolve, dget?_mkVars_subs names ps subs hnd hv]
+  · intro h1 h2
+    simp [resolve, dget?_mkVars_not_subs names ps subs h1, h2]
+  · intro h1 h2
+    simp [resolve, dget?_mkVars_not_subs names ps subs h1, h2]
+
+end Free
+
+/-! ## H. when `get_odesys` accepts -/
+section Accept
+
+/-- all species a reaction mentions (`Reaction.keys()`) -/
+def speciesOf (r : Rxn) : List String :=
+  dedupKeys (dkeys r.reac ++ dkeys r.prod ++ dkeys r.inactReac ++ dkeys r.inactProd)
+
+theorem fc_ne_time (s : String) : "fc_" ++ s ≠ "time" := by
+  intro h
+  have := congrArg String.toList h
+  simp at this
+
+theorem time_not_cstrKey (b : Bool) (subst : List String) : "time" ∉ cstrKeys (cstrOf b subst) := by
+  cases b with
+  | false => simp [cstrOf, cstrKeys]
+  | true =>
+    simp only [cstrOf, if_true, cstrKeys, List.map_map, List.mem_cons, List.mem_map, Function.comp_def, not_or, not_exists, not_and]
+    exact ⟨by decide, fun s _ h => fc_ne_time s h⟩
+
+theorem resolveAll_succeeds (vars : List (String × Poly String)) :
+    ∀ (l : List Rxn), (∀ r ∈ l, (resolve vars r.param).isSome = true ∧ ∀ j ∈ dkeys r.reac, dmem vars j = true) →
+      ∃ rs, resolveAll vars l = some rs ∧ ∀ s, (∃ r ∈ rs, s ∈ rxnKeys r) ↔ (∃ r ∈ l, s ∈ speciesOf r) := by
+  intro l
+  induction l with
+  | nil => intro _; exact ⟨[], rfl, by simp⟩
+  | cons r t ih =>
+    intro h
+    obtain ⟨rs, hrs, hk⟩ := ih (fun r' hr' => h r' (List.mem_cons_of_mem _ hr'))
+    obtain ⟨h1, h2⟩ := h r (by simp)
+    cases hp : resolve vars r.param with
+    | none => simp [hp] at h1
+    | some k =>
+      refine ⟨toReaction r k :: rs, ?_, ?_⟩
+      · have hall : (dkeys r.reac).all (dmem vars) = true := List.all_eq_true.mpr h2
+        simp [resolveAll, hp, hall, hrs]
+      · intro s
+        simp only [List.mem_cons, exists_eq_or_imp, hk]
+        rfl
+
+theorem dkeys_dacc {β : Type} [Add β] (d : List (String × β)) (k : String) (v : β) :
+    dkeys (dacc d k v) = if k ∈ dkeys d then dkeys d else dkeys d ++ [k] := by
+  induction d with
+  | nil => simp [dacc, dkeys]
+  | cons a t ih =>
+    obtain ⟨k', v'⟩ := a
+    unfold dacc
+    by_cases hk : k' = k
+    · simp [hk, dkeys]
+    · have hk' : ¬ k = k' := fun e => hk e.symm
+      simp only [hk, if_false, dkeys, List.map_cons, List.mem_cons, hk', false_or] at ih ⊢
+      rw [ih]
+      by_cases h : k ∈ List.map Prod.fst t <;> simp [h]
+
+theorem nodup_dkeys_dacc {β : Type} [Add β] {d : List (String × β)} (h : (dkeys d).Nodup) (k : String) (v : β) :
+    (dkeys (dacc d k v)).Nodup := by
+  rw [dkeys_dacc]
+  split
+  · exact h
+  · next hk =>
+    rw [List.nodup_append]
+    exact ⟨h, by simp, fun a ha b hb => by simp at hb; subst hb; exact fun e => hk (e ▸ ha)⟩
+
+theorem nodup_dkeys_foldl_dacc {β γ : Type} [Add β] (key : γ → String) (val : γ → β) (l : List γ) (d : List (String × β))
+    (h : (dkeys d).Nodup) : (dkeys (l.foldl (fun d x => dacc d (key x) (val x)) d)).Nodup := by
+  induction l generalizing d with
+  | nil => exact h
+  | cons a t ih => exact ih _ (nodup_dkeys_dacc h _ _)
+
+theorem nodup_dkeys_sysRates {β : Type} [Add β] [Sub β] [Mul β] [NatCast β] [IntCast β] (vars : String → β)
+    (rs : List (Reaction String β)) (keys? : Option (List String)) (cstr? : Option (Cstr String)) :
+    (dkeys (sysRates vars rs keys? cstr?)).Nodup := by
+  have h0 : (dkeys (sysRatesNoFeed vars rs keys?)).Nodup := by
+    unfold sysRatesNoFeed
+    have key : ∀ (l : List (Reaction String β)) (d : List (String × β)), (dkeys d).Nodup →
+        (dkeys (l.foldl (fun result r => accumulate result (rxnRate vars r (keysFor keys? r))) d)).Nodup := by
+      intro l
+      induction l with
+      | nil => intro d h; exact h
+      | cons r t ih =>
+        intro d h
+        exact ih _ (nodup_dkeys_foldl_dacc (fun kv : String × β => kv.1) (fun kv => kv.2) _ d h)
+    exact key rs [] (by simp [dkeys])
+  cases cstr? with
+  | none => exact h0
+  | some cs => exact nodup_dkeys_foldl_dacc (fun kv : String × String => kv.1) _ cs.fc _ h0
+
+theorem readAll_succeeds (rates : List (String × Poly String)) :
+    ∀ (names : List String), (∀ n ∈ names, n ∈ dkeys rates) → ∃ es, readAll rates names = some es := by
+  intro names
+  induction names with
+  | nil => intro _; exact ⟨[], rfl⟩
+  | cons n t ih =>
+    intro h
+    obtain ⟨es, hes⟩ := ih (fun m hm => h m (List.mem_cons_of_mem _ hm))
+    cases hd : dget? rates n with
+    | none => exact absurd (h n (by simp)) (dget?_eq_none_iff.mp hd)
+    | some e => exact ⟨e :: es, by simp [readAll, hd, hes]⟩
+
+/-- **`get_odesys` accepts** every system with at least one reaction in which no name is captured, every species is a
+    substance, every substance takes part in some reaction (or the tank is fed), the substitution keys occur in the rate model,
+    `'time'` is not used as a name, every value-less key has a value when the constants are inlined, and the constants are
+    sympy numbers. -/
+theorem buildRhs_accepts (cfg : Cfg) (sys : Sys) (hnd : sys.subst.Nodup) (hsub : (dkeys cfg.subs).Nodup)
+    (hne : sys.rxns ≠ []) (hnc : noCapture sys (dkeys cfg.subs) cfg.cstr = true)
+    (hspecies : ∀ r ∈ sys.rxns, ∀ j ∈ speciesOf r, j ∈ sys.subst)
+    (hpart : cfg.cstr = true ∨ ∀ s ∈ sys.subst, ∃ r ∈ sys.rxns, s ∈ speciesOf r)
+    (hsubs : ∀ k ∈ dkeys cfg.subs, k ∈ cstrKeys (cstrOf cfg.cstr sys.subst) ∨ k ∈ oriUk sys.rxns)
+    (htime : "time" ∉ sys.subst ∧ "time" ∉ oriUk sys.rxns)
+    (hval : cfg.includeParams = true → ∀ r ∈ sys.rxns, ∀ uk, (r.param = .key uk ∨ r.param = .sym uk) → uk ∈ dkeys cfg.subs)
+    (hpy : cfg.pyNums = false) : ∃ o, buildRhs cfg sys = .ok o := by
+  obtain ⟨hreacN, hukN, hsubsN, hcsN, hukC⟩ := (noCapture_iff _ _ _).mp hnc
+  -- parameter names are CSTR keys or unique keys
+  have hps : ∀ p ∈ paramNamesOf cfg sys, p ∈ cstrKeys (cstrOf cfg.cstr sys.subst) ∨ p ∈ oriUk sys.rxns := by
+    intro p hp
+    rcases (mem_paramNamesOf _ _ _).mp hp with h | ⟨hi, h⟩
+    · exact Or.inl ((mem_allPk _ _ _).mp h).1
+    · obtain ⟨r, hr, hk, _⟩ := (mem_uniqueDict cfg hi _ _).mp h
+      exact Or.inr (mem_oriUk.mpr ⟨r, hr, hk⟩)
+  have hpsN : ∀ p ∈ paramNamesOf cfg sys, p ∉ sys.subst := fun p hp => (hps p hp).elim (hcsN p) (hukN p)
+  -- a key defined in `variables`
+  have hdef_subs : ∀ k ∈ dkeys cfg.subs, dmem (mkVars sys.subst (paramNamesOf cfg sys) cfg.subs) k = true := by
+    intro k hk
+    cases hv : dget? cfg.subs k with
+    | none => exact absurd hk (dget?_eq_none_iff.mp hv)
+    | some v => simp [dmem, dget?_mkVars_subs _ _ _ hsub hv]
+  have hdef_subst : ∀ s ∈ sys.subst, dmem (mkVars sys.subst (paramNamesOf cfg sys) cfg.subs) s = true := fun s hs =>
+    (dmem_mkVars_not_subs _ _ _ (fun hk => hsubsN s hk hs)).mpr (Or.inr hs)
+  have hdef_cs : ∀ k ∈ cstrKeys (cstrOf cfg.cstr sys.subst), dmem (mkVars sys.subst (paramNamesOf cfg sys) cfg.subs) k = true := by
+    intro k hk
+    by_cases hm : k ∈ dkeys cfg.subs
+    · exact hdef_subs k hm
+    · exact (dmem_mkVars_not_subs _ _ _ hm).mpr (Or.inl ((mem_paramNamesOf _ _ _).mpr (Or.inl ((mem_allPk _ _ _).mpr
+        ⟨hk, hm, fun e => time_not_cstrKey _ _ (e ▸ hk)⟩))))
+  -- the reactions resolve
+  have hres : ∀ r ∈ sys.rxns, (resolve (mkVars sys.subst (paramNamesOf cfg sys) cfg.subs) r.param).isSome = true ∧
+      ∀ j ∈ dkeys r.reac, dmem (mkVars sys.subst (paramNamesOf cfg sys) cfg.subs) j = true := by
+    intro r hr
+    refine ⟨?_, fun j hj => hdef_subst j (hreacN r hr j hj)⟩
+    have hkeyed : ∀ uk, (r.param = .key uk ∨ r.param = .sym uk) →
+        (dget? (mkVars sys.subst (paramNamesOf cfg sys) cfg.subs) uk).isSome = true := by
+      intro uk hp
+      by_cases hm : uk ∈ dkeys cfg.subs
+      · exact hdef_subs uk hm
+      · have hi : cfg.includeParams = false := by
+          cases hi : cfg.includeParams with
+          | false => rfl
+          | true => exact absurd (hval hi r hr uk hp) hm
+        have hreg : uk ∈ paramNamesOf cfg sys := (mem_paramNamesOf _ _ _).mpr (Or.inr ⟨hi, (mem_uniqueDict cfg hi _ _).mpr
+          ⟨r, hr, by rcases hp with hp | hp <;> simp [hp, RateParam.uniqueKey?], dmem_false_of_not_mem hm⟩⟩)
+        exact (dmem_mkVars_not_subs _ _ _ hm).mpr (Or.inl hreg)
+    cases hp : r.param with
+    | raw k => rfl
+    | ma k => rfl
+    | named uk k => simp only [resolve]; split <;> rfl
+    | key uk => exact hkeyed uk (Or.inl hp)
+    | sym uk => exact hkeyed uk (Or.inr hp)
+  obtain ⟨rs, hrs, hkeys⟩ := resolveAll_succeeds _ sys.rxns hres
+  -- the rate dict has exactly the substances as keys
+  have hmemR : ∀ s, s ∈ dkeys (sysRates (lookup (mkVars sys.subst (paramNamesOf cfg sys) cfg.subs)) rs none (cstrOf cfg.cstr sys.subst)) ↔
+      s ∈ sys.subst := by
+    intro s
+    rw [← dkeys_dmap (ev (fun _ => (0 : ℚ))), dmap_sysRates (opsHom_ev _), C03.sysRates_keys]
+    have hk2 : (∃ r ∈ rs.map (mapR (ev (fun _ => (0 : ℚ)))), s ∈ keysFor none r) ↔ ∃ r ∈ rs, s ∈ rxnKeys r := by
+      simp only [List.mem_map, keysFor]
+      constructor
+      · rintro ⟨r', ⟨r, hr, rfl⟩, h⟩; exact ⟨r, hr, h⟩
+      · rintro ⟨r, hr, h⟩; exact ⟨_, ⟨r, hr, rfl⟩, h⟩
+    rw [hk2, hkeys s]
+    constructor
+    · rintro (⟨r, hr, h⟩ | ⟨cs, hcs, h⟩)
+      · exact hspecies r hr s h
+      · unfold cstrOf at hcs
+        split at hcs
+        · cases hcs; simpa [dkeys, Function.comp_def] using h
+        · cases hcs
+    · intro hs
+      rcases hpart with hc | hp
+      · refine Or.inr ⟨{ frKey := "feedratio", fc := sys.subst.map fun s => (s, "fc_" ++ s) }, by simp [cstrOf, hc], ?_⟩
+        simpa [dkeys, Function.comp_def] using hs
+      · exact Or.inl (hp s hs)
+  have hlen : (sysRates (lookup (mkVars sys.subst (paramNamesOf cfg sys) cfg.subs)) rs none (cstrOf cfg.cstr sys.subst)).length =
+      sys.subst.length := by
+    have hperm := (List.perm_ext_iff_of_nodup (nodup_dkeys_sysRates _ rs none (cstrOf cfg.cstr sys.subst)) hnd).mpr hmemR
+    simpa [dkeys] using hperm.length_eq
+  obtain ⟨es, hes⟩ := readAll_succeeds _ sys.subst (fun n hn => (hmemR n).mpr hn)
+  -- walk through the guards
+  unfold buildRhs
+  dsimp only
+  rw [if_neg (by simpa using hne)]
+  rw [if_neg (by
+    simp only [List.any_eq_true, not_exists, not_and, Bool.not_eq_true, Bool.not_eq_false', Bool.or_eq_true, decide_eq_true_eq]
+    intro kv hkv
+    exact hsubs kv.1 (mem_dkeys_iff_exists.mpr ⟨kv, hkv, rfl⟩))]
+  rw [if_neg (by
+    simp only [List.any_eq_true, decide_eq_true_eq, not_exists, not_and]
+    intro n hn hp
+    exact hpsN n hp hn)]
+  rw [if_neg (by
+    simp only [Bool.or_eq_true, decide_eq_true_eq, not_or]
+    exact ⟨htime.1, fun hp => (hps _ hp).elim (time_not_cstrKey _ _) htime.2⟩)]
+  have htref : "time" ∉ referenced sys.rxns := by
+    intro hm
+    simp only [referenced, List.mem_flatten, List.mem_map] at hm
+    obtain ⟨l, ⟨r, hr, rfl⟩, hm⟩ := hm
+    rcases List.mem_append.mp hm with h | h
+    · exact htime.1 (hreacN r hr _ h)
+    · cases hk : r.param.uniqueKey? with
+      | none => simp [hk] at h
+      | some uk =>
+        simp only [hk, List.mem_singleton] at h
+        exact htime.2 (mem_oriUk.mpr ⟨r, hr, h ▸ hk⟩)
+  rw [if_neg (by simpa using htref)]
+  simp only [hrs]
+  rw [if_pos (by
+    apply List.all_eq_true.mpr
+    intro k hk
+    cases hc : cfg.cstr with
+    | false => simp [hc, cstrOf, cstrNeeded] at hk
+    | true =>
+      simp only [hc, cstrOf, if_true, cstrNeeded, List.map_map, List.mem_flatten, List.mem_map, Function.comp_def] at hk
+      obtain ⟨l, ⟨s, hs, rfl⟩, hkl⟩ := hk
+      simp only [List.mem_cons, List.not_mem_nil, or_false] at hkl
+      rcases hkl with rfl | rfl | rfl
+      · exact hdef_cs _ (by simp [hc, cstrOf, cstrKeys])
+      · exact hdef_cs _ (by
+          simp only [hc, cstrOf, if_true, cstrKeys, List.map_map, List.mem_cons, List.mem_map, Function.comp_def]
+          exact Or.inr ⟨s, hs, rfl⟩)
+      · exact hdef_subst _ hs)]
+  have hre : readExprs sys.subst (sysRates (lookup (mkVars sys.subst (paramNamesOf cfg sys) cfg.subs)) rs none (cstrOf cfg.cstr sys.subst)) = .ok es := by
+    unfold readExprs
+    rw [if_neg (by simpa using hlen)]
+    simp only [hes]
+  simp only [hre, hpy, pyNumberEntry, Bool.false_and, List.any_eq_true, Bool.false_eq_true, and_false, exists_false, if_false]
+  exact ⟨_, rfl⟩
+
+end Accept
+
 end ChemModel.OdeBuild
